@@ -279,7 +279,17 @@ pub fn lookup_full_precision_p8() {
         Ok(m) => m, Err(()) => { assert!(false, "C19: valid full-precision table refused"); return; } };
     let q: u8 = any();
     let want = m.quantile_function(q);
-    if group(2) == 0 {
+    let grp = group(3);
+    if grp == 2 {
+        // the lookup model seen as a searched model again, and its table rows
+        let l = m.to_lookup_decoder_model();
+        let back = l.as_contiguous_categorical();
+        let s: usize = any();
+        assert!(back.left_cumulative_and_probability(s) == m.left_cumulative_and_probability(s), "C05: lookup model viewed as a searched model differs from the model it was converted from");
+        assert!(back.quantile_function(q) == want, "C05: lookup model viewed as a searched model answers a quantile differently");
+        return;
+    }
+    if grp == 0 {
         let l = m.to_lookup_decoder_model();
         let got = l.quantile_function(q);
         assert!(got == want, "C05/C10/C03: lookup model converted from a searched model answers a quantile differently (full precision)");
